@@ -343,6 +343,9 @@ class RiscvParser(Parser):
 
         temp: list[tuple[int, str, pp.ParseResults]] = []
         self.in_line_labels: dict[int, str] = {}
+        # line numbers of stand-alone label declarations. They are stored as plain strings, just like
+        # nop, ecall and ebreak, so a label may only be told apart from those by its line number.
+        self.label_declaration_lines: set[int] = set()
 
         for (n, l, p) in self.text:
             if not isinstance(p, str) and len(p) == 2:
@@ -350,6 +353,8 @@ class RiscvParser(Parser):
                 assert isinstance(p[0], str)
                 self.in_line_labels[n] = p[0]
             else:
+                if "label_declaration" in p:
+                    self.label_declaration_lines.add(n)
                 temp.append((n, l, p[0]))
         self.text = temp
 
@@ -444,7 +449,7 @@ class RiscvParser(Parser):
 
         for line_number, line, line_parsed in self.text:
             index = self.text.index((line_number, line, line_parsed))
-            if line_parsed == "nop":
+            if line_parsed == "nop" and line_number not in self.label_declaration_lines:
                 self.text[index] = (
                     line_number,
                     line,
@@ -648,7 +653,7 @@ class RiscvParser(Parser):
 
         for line_number, line, line_parsed in self.text:
             # line is a label
-            if (
+            if line_number in self.label_declaration_lines or (
                 isinstance(line_parsed, str)
                 and line_parsed != "ecall"
                 and line_parsed != "ebreak"
@@ -680,6 +685,8 @@ class RiscvParser(Parser):
         address_count: int = self.start_address
 
         for line_number, line, line_parsed in self.text:
+            if line_number in self.label_declaration_lines:
+                continue
             if isinstance(line_parsed, str):
                 # skip if instruction_parsed is a label, but do not skip ecall/ebreak
                 if line_parsed == "ecall":
